@@ -86,10 +86,11 @@ def gen_hcase(rng, kn):
                 'after': cbs('after', 0.85), 'prepare': cbs('prepare', 0.9)}
     # compounds whose children are all leaves may carry local transitions and exits (embedding candidates)
     for n in top:
-        if (not kn.enum and n['children'] and all(not c['children'] for c in n['children'])
-                and rng.random() < kn.p_embed):
+        if not kn.enum and n['children'] and rng.random() < kn.p_embed:
             kids = [c['id'] for c in n['children']]
-            local = [[2 * rng.randrange(nev), rng.choice(kids), rng.choice(kids), tcb()] for _ in range(rng.randint(1, 3))]
+            # local transitions between the children; source -1 = the wildcard '*' of that scope
+            local = [[2 * rng.randrange(nev), (-1 if rng.random() < 0.25 else rng.choice(kids)), rng.choice(kids), tcb()]
+                     for _ in range(rng.randint(1, 4))]
             others = [t['id'] for t in top if t is not n]
             exits = [[2 * rng.randrange(nev), rng.choice(kids), rng.choice(others), tcb()]
                      for _ in range(rng.randint(0, 2))]
@@ -106,7 +107,7 @@ def gen_hcase(rng, kn):
         for k in range(4):
             out = ['ret', True]
             if c in cond_cbs and rng.random() < kn.p_cond_false:
-                out = ['ret', False]
+                out = ['ret', None if rng.random() < 0.3 else False]
             if rng.random() < kn.p_raise:
                 out = ['raise', 3, rng.randrange(3)]
             if out != ['ret', True]:
@@ -170,6 +171,12 @@ def derive_h(case, vseed, identity=False):
             p['rep'] = 'obj'
         elif n['embed']:
             p['embed'] = 'machine' if coin(0.6) else 'dict'
+            nloc = len(n['embed']['local'])
+            # '*' kept or spelled out; embedded form: which local transitions the child machine brings along and
+            # which the dict adds on top ('transitions' key); whether the child machine has auto transitions
+            p['lw'] = ['list' if coin(0.5) else 'star' for _ in range(nloc)]
+            p['split'] = rng.randint(0, nloc) if (p['embed'] == 'machine' and coin(0.5)) else nloc
+            p['child_auto'] = p['embed'] == 'machine' and coin(0.4)
         elif not n['children'] and not n['on_enter'] and not n['on_exit'] and coin(0.6):
             p['rep'] = 'str'
         elif subtree_plain(n) and coin(0.25):
@@ -201,6 +208,9 @@ def derive_h(case, vseed, identity=False):
         for n in case['top']:
             if n['embed']:
                 taken |= set((ev, s, t) for ev, s, t, _cb in n['embed']['local'] + n['embed']['exits'])
+                # a local wildcard stands for every child (a global removal reaches local transitions too)
+                taken |= set((ev, c['id'], t) for ev, s, t, _cb in n['embed']['local'] if s == -1
+                             for c in n['children'])
         for _ in range(rng.randint(1, 2)):
             dt = {'ev': 2 * rng.randrange(case['nev'] + 1), 'src': rng.choice(ids), 'dst': rng.choice(ids),
                   'at': rng.randint(0, len(case['transitions']))}
@@ -212,8 +222,16 @@ def derive_h(case, vseed, identity=False):
                 taken.add((dt['ev'], dt['src'], dt['dst']))
                 detours.append(dt)
     deferring = any(p['defer_from'] is not None for p in plan.values())
+    cbrep = {}
+    for c, sl in case['cb_slot']:
+        if identity:
+            cbrep[c] = 'name'
+        elif sl in (SLOT['conditions'], SLOT['unless']):
+            cbrep[c] = rng.choice(['name', 'name', 'ref', 'dotted', 'prop'])
+        else:
+            cbrep[c] = rng.choice(['name', 'name', 'ref', 'dotted'])
     out = {'plan': sorted(plan.items()), 'tplan': tplan, 'detours': detours, 'seed': vseed,
-           'model_in_ctor': coin(0.5) and not deferring}
+           'model_in_ctor': coin(0.5) and not deferring, 'cbrep': sorted(cbrep.items())}
     if case.get('enum'):
         # the whole tree as (nested) Enum classes; transition end points as Enum members or joined names
         out['enum_tree'] = coin(0.75)
@@ -238,7 +256,7 @@ class RunH(build13.Run13):
             history=[tuple(c) for c in case['history']])
         self.items, self.counts, self.next_tag, self.bad, self.tag_event = [], {}, 0, [], {}
         self.model_objs = {0: build13.Model13(0, self)}
-        self.cbrep = {}
+        self.cbrep = dict(variant.get('cbrep', []))
         self.machine = None
         self.error = None
         self.paths = paths_of(case)
@@ -343,9 +361,10 @@ class RunH(build13.Run13):
             return st
         d = dict(name=name, **kw)
         if n['embed'] and p['embed'] == 'machine':
-            exit_names = {}
             sts = [self.node_def(c, deferred) for c in n['children']]
-            ts = [self.tdef(ev_name(ev), nname(s), nname(t), cb, 'list') for ev, s, t, cb in n['embed']['local']]
+            locs = self.local_defs(n, p)
+            split = p.get('split', len(locs))
+            ts = locs[:split]
             # exits: one extra child state per exit target, remapped to the target in the parent
             remap = {}
             for i, (ev, s, target, cb) in enumerate(n['embed']['exits']):
@@ -355,10 +374,12 @@ class RunH(build13.Run13):
                     sts.append(x)
                 ts.append(self.tdef(ev_name(ev), nname(s), x, cb, 'dict'))
             child = HierarchicalMachine(model=None, states=sts, transitions=ts, initial=kw.pop('initial'),
-                                        auto_transitions=False, send_event=self.d.send_event)
+                                        auto_transitions=bool(p.get('child_auto')), send_event=self.d.send_event)
             d = dict(name=name, **kw)
             d[p['key']] = child
             d['remap'] = remap
+            if locs[split:]:
+                d['transitions'] = locs[split:]     # on top of what the embedded machine brings along
             return d
         kids = n['children']
         cut = len(kids) if p['defer_from'] is None else p['defer_from']
@@ -367,9 +388,20 @@ class RunH(build13.Run13):
         for c in kids[cut:]:
             deferred.append(c)
         if n['embed']:
-            d['transitions'] = [self.tdef(ev_name(ev), nname(s), nname(t), cb, 'list' if (ev + s) % 2 else 'dict')
-                                for ev, s, t, cb in n['embed']['local']]
+            d['transitions'] = self.local_defs(n, p)
         return d
+
+    def local_defs(self, n, p):
+        """the local transitions of a compound in list / dict form; the wildcard source as '*' or spelled out"""
+        out = []
+        lw = p.get('lw') or ['star'] * len(n['embed']['local'])
+        for (ev, s, t, cb), w in zip(n['embed']['local'], lw):
+            if s == -1:
+                src = '*' if w == 'star' else [nname(c['id']) for c in n['children']]
+            else:
+                src = nname(s)
+            out.append(self.tdef(ev_name(ev), src, nname(t), cb, 'list' if (ev + t) % 2 else 'dict'))
+        return out
 
     def add_deferred(self, m, n):
         """create node n (whose parent exists) through its separator-joined name, then its subtree"""
@@ -489,6 +521,22 @@ class RunH(build13.Run13):
                     else bool(m.ignore_invalid_triggers),
                     'events': events(st.events), 'children': [node(c) for c in st.states.values()]}
         return {'states': [node(s) for s in m.states.values()], 'events': events(m.events), 'initial': m._initial}
+
+
+def strip_local_auto(intro):
+    """the same structure without local events named to_<…> (auto transitions an embedded machine brought along)"""
+    def node(n):
+        n = dict(n)
+        n['events'] = {k: v for k, v in n['events'].items() if not k.startswith('to_')}
+        n['children'] = [node(c) for c in n['children']]
+        return n
+    return {'states': [node(s) for s in intro['states']], 'events': intro['events'], 'initial': intro['initial']}
+
+
+def embeds_auto_machine_with_nested_states(case, variant):
+    plan = dict(variant['plan'])
+    return any(n['embed'] and plan[n['id']].get('child_auto') and any(c['children'] for c in n['children'])
+               for n in case['top'])
 
 
 def drop_empty(intro):
